@@ -45,13 +45,14 @@ BATCH_DOC = {
 PLAN = {
     # runs per batch; R2 keys per hash seed; R3 replays; determinism seeds; soft wall cap (s)
     # K5: repetitions per op; K6: (read faults per table, interrupts per table)
-    "quick": {"runs": {"K0": 100, "K1": 260, "K2": 140, "K3": 140, "K4": 160}, "k5_reps": 2, "k6": (2, 4),
+    "quick": {"runs": {"K0": 100, "K1": 260, "K2": 140, "K3": 140, "K4": 160}, "k5_reps": 3, "k6": (2, 4),
               "r2": 24, "r2_single": 3, "r3": 8, "det": 8, "cap": 420},
     "thorough": {"runs": {"K0": 3000, "K1": 9000, "K2": 5000, "K3": 5000, "K4": 6000}, "k5_reps": 40, "k6": (5, 60),
                  "r2": 600, "r2_single": 24, "r3": 200, "det": 64, "cap": 3300},
 }
 CHUNK = 4
 R2_MOD = 8
+MINIMISE_WALL_S = 75     # per violation class; a longer replay file is still a valid replay file
 
 PROJ_KEYS = ("id", "kind", "op", "pre", "out", "outkind", "faulted", "tag", "reads", "applied", "changed",
              "skipped", "read_fault_fired", "intr_fired_at", "intr_ordinal", "intr_total", "lines", "error")
@@ -218,8 +219,12 @@ class Check:
         reps = max(1, int(round(self.plan["k5_reps"] * self.scale)))
         i = 0
         for rep in range(reps):
-            for opname in sorted(OPS):
-                out.append({"mode": "generate", "batch": "K5", "i": i, "tier": self.tier, "op": opname,
+            for k, opname in enumerate(sorted(OPS)):
+                # qubit counts are cycled so that every op meets small AND large systems in every run of the check
+                # (some channels exist for 6 qubits only: S04); rep 0: 2-4, rep 1: 5/6, rep 2: 6, then all five in turn
+                n = [2, 3, 4][(k + self.seed) % 3] if rep == 0 else ([5, 6][(k + self.seed) % 2] if rep == 1 else
+                                                                      (6 if rep == 2 else 2 + (k + rep + self.seed) % 5))
+                out.append({"mode": "generate", "batch": "K5", "i": i, "tier": self.tier, "op": opname, "n": n,
                             "seed": run_seed(self.seed, self.tier, "K5", i), "keep": i < 4, "want_events": True})
                 i += 1
         # K6: every shipped table x faults at seeded points
@@ -293,6 +298,8 @@ class Check:
             a["transitions"].update(rep["transitions"])
             a["intr_sites"].update(tuple(s) for s in rep["intr_sites"])
             a["opaque"] += rep.get("opaque", 0)
+            a["sim_time"] = a.get("sim_time", 0.0) + rep.get("sim_time", 0.0)
+            a["clock_reads"] = a.get("clock_reads", 0) + rep.get("clock_reads_by_library", 0)
             a["warm_files"].update(rep.get("warm", []))
             if rep["violations"]:
                 a["by_batch"][b]["violations"] += 1
@@ -329,7 +336,7 @@ class Check:
             procs.append(("single", own_hs, [s], fresh.launch({"mode": "single", "req": s["req"]}, own_hs, VERIF, "/", "C")))
         # R3: fault-free and faulted histories replayed whole, unjudged, in another process
         r3 = []
-        for (b, i), rep in sorted(self.kept.items()):
+        for (i, b), rep in sorted(((i, b), rep) for (b, i), rep in self.kept.items()):   # round-robin over the batches
             if len(r3) >= self.plan["r3"]:
                 break
             if rep.get("events") is None or rep["violations"]:
@@ -410,7 +417,8 @@ class Check:
         """Same run seed -> same event log: again in the pool (usually another worker) and in a fresh
         interpreter under another PYTHONHASHSEED (generator included)."""
         n = self.plan["det"]
-        base = [rep for (b, i), rep in sorted(self.kept.items()) if not rep["violations"]][:n]
+        base = [rep for (i, b), rep in sorted(((i, b), rep) for (b, i), rep in self.kept.items())
+                if not rep["violations"]][:n]
         res = {"seeds": len(base), "pool_rerun_equal": 0, "fresh_interpreter_equal": 0, "mismatches": []}
         if not base:
             return res
@@ -526,7 +534,8 @@ def write_replay(rep, v, seed, tier, state, count, minimise_it, log):
         cur = steps[: upto + 1]
         if not replay_fails(cur, cls):
             cur = steps
-        cur, t1 = minimise.ddmin(cur, lambda c: replay_fails(c, cls), lits)
+        deadline = time.time() + MINIMISE_WALL_S
+        cur, t1 = minimise.ddmin(cur, lambda c: time.time() < deadline and replay_fails(c, cls), lits)
         cur, t2 = minimise.simplify(cur, lambda c: replay_fails(c, cls))
         info["minimiser_tests"] = t1 + t2
         final = worker.run_job({"mode": "replay", "steps": cur, "judge": True, "want_events": True})
@@ -651,7 +660,10 @@ def evidence(chk, ref, det, state, wall, t_batches, new, kn):
             + st.get("mutations_applied", 0) + st.get("drops", 0) + st.get("read_faults_armed", 0) + st.get("interrupts_armed", 0),
             "runs_per_hour": round(a["runs"] / hours), "seeds_per_hour": round(a["runs"] / hours),
             "batch_wall_s": round(t_batches, 1),
-            "simulated_time": "not applicable - the system has no clock; progress is counted in steps",
+            "simulated_time_s": round(a.get("sim_time", 0.0), 1),
+            "simulated_time_note": "virtual clock advanced between the caller's actions (per-run regime: none / ms / minutes / "
+                                   "days / mixed); the pinned library never reads a clock - reads from library frames are counted",
+            "clock_reads_by_library_frames": a.get("clock_reads", 0),
             "by_batch": a["by_batch"], "batch_meaning": BATCH_DOC,
             "calls": {"total": st.get("calls", 0), "judged": st.get("calls_judged", 0), "raising": st.get("calls_raising", 0),
                       "faulted_not_judged": st.get("calls_faulted", 0),
